@@ -128,4 +128,15 @@ Definition tvtb_zero (d : nat) (sd : side) : result (warned (scaled vec)) :=
 Definition tvtb_absorbing (d : nat) (sd : side) : result (warned (scaled vec)) :=
   Err NotImplementedErr.
 
+(* binding of scaled operands: cores bind, radicands multiply
+   (sqrt(n1/d1) * sqrt(n2/d2) = sqrt(n1*n2/(d1*d2)); the algebra's own factor
+   sqrt(s) comes from the unscaled bind) *)
+Definition scale_mul {T} (r : scaled T) (x y : scaled vec) : scaled T :=
+  Scaled (core r) (rnum r * rnum x * rnum y) (rden r * rden x * rden y).
+
+Definition vtb_sbind (x y : scaled vec) : result (scaled vec) :=
+  rmap (fun r => scale_mul r x y) (vtb_bind (core x) (core y)).
+Definition tvtb_sbind (x y : scaled vec) : result (scaled vec) :=
+  rmap (fun r => scale_mul r x y) (tvtb_bind (core x) (core y)).
+
 End Vtb.
